@@ -45,3 +45,76 @@ Theorem C06_text : forall PS PK v dflt fuel,
   encode_value fuel (render_value float_text v) dflt = etxt float_text v dflt.
 Proof. exact (fun PS PK v dflt fuel H Hf => encode_value_txt float_text PS PK v H fuel dflt Hf). Qed.
 Print Assumptions C06_text.
+
+(* ---- the constructors stay inside Built ----------------------------------------------------------
+   `cval` (Model/Build.v) composes Value::from, Array::new + push, collect into an Array,
+   InlineTable::new + insert (a repeated key replaces the value in place), collect into an inline
+   table; whatever such a term evaluates to is a BuiltValue with default decor *)
+From TV Require Import Proofs.BuiltRTWF.
+Theorem C06_built_value : forall PS PK c, cval_ok PS PK c ->
+  BuiltValue PS PK (eval_value c) /\ value_decor (eval_value c) = decor_default.
+Proof. exact eval_value_built. Qed.
+Print Assumptions C06_built_value.
+
+Theorem C06_value_constructed : forall c,
+  cval_ok scalar_ok key_ok c -> value_depth (eval_value c) < LIMIT ->
+  exists v', parse_value_raw (display_value (render_value float_text (eval_value c))) = POk v'
+             /\ abs_value v' = abs_value (eval_value c).
+Proof. exact constructed_value_roundtrip. Qed.
+Print Assumptions C06_value_constructed.
+
+(* ---- the hypotheses are satisfiable; nasty values; the depth bound is sharp ------------------------ *)
+Definition ex_nasty : cval :=
+  CInlInsert
+    [([x61], CArrPush [CScalar (SString [x0a; x22; x27; x5c; x00]);                 (* LF, quotation mark, apostrophe, backslash, NUL *)
+                       CScalar (SInt (- 2 ^ 63));
+                       CScalar (SFloat (FDec true 0 (-1)));                           (* -0.0 *)
+                       CScalar (SFloat (FNan true)); CScalar (SFloat (FInf false));
+                       CScalar (SFloat (FDec false 5 (-324)));                         (* 5e-324 *)
+                       CScalar (SDatetime (mkDT (Some (mkDate 2000 2 29)) None None));
+                       CScalar (SDatetime (mkDT None (Some (mkTime 23 59 60 1)) None));
+                       CScalar (SBool true); CArrCollect []; CInlCollect []]);
+     ([], CInlCollect [([x31], CScalar (SDatetime (mkDT (Some (mkDate 1979 5 27)) (Some (mkTime 7 32 0 500000000)) (Some (OffCustom (-420))))))]);
+     ([x61], CScalar (SString []))].                                                  (* the key `a` again: replaced in place *)
+
+Example ex_nasty_ok : cval_ok scalar_ok key_ok ex_nasty.
+Proof. repeat (constructor; cbn; try reflexivity; try (split; reflexivity)). Qed.
+
+Example ex_nasty_text :
+  display_value (render_value float_text (eval_value ex_nasty))
+  = [x7b; x20; x61; x20; x3d; x20; x22; x22; x2c; x20; x22; x22; x20; x3d; x20; x7b; x20; x31; x20; x3d; x20]
+    ++ [x31; x39; x37; x39; x2d; x30; x35; x2d; x32; x37; x54; x30; x37; x3a; x33; x32; x3a; x30; x30; x2e; x35; x2d; x30; x37; x3a; x30; x30]
+    ++ [x20; x7d; x20; x7d].                 (* { a = <empty string>, <empty key> = { 1 = 1979-05-27T07:32:00.5-07:00 } } *)
+Proof. vm_compute. reflexivity. Qed.
+
+Definition ex_array : cval :=
+  CArrPush [CScalar (SString [x0a; x22; x27; x5c; x00]); CScalar (SInt (- 2 ^ 63)); CScalar (SFloat (FDec true 0 (-1)));
+            CScalar (SFloat (FNan true)); CScalar (SFloat (FDec false 5 (-324)));
+            CScalar (SDatetime (mkDT (Some (mkDate 2000 2 29)) None None));
+            CInlInsert [([x64], CScalar (SDatetime (mkDT (Some (mkDate 2000 2 29)) None None)))];   (* a date before ` }` *)
+            CArrCollect [CInlCollect []]].
+Example ex_array_roundtrip :
+  exists v', parse_value_raw (display_value (render_value float_text (eval_value ex_array))) = POk v'
+             /\ abs_value v' = abs_value (eval_value ex_array).
+Proof. eexists. split; vm_compute; reflexivity. Qed.
+
+(* nesting: 79 levels are read back, 80 are printed but refused by the parser's recursion limit *)
+Fixpoint nest (n : nat) (c : cval) : cval := match n with O => c | S n' => CArrPush [nest n' c] end.
+Example ex_depth_79 :
+  exists v', parse_value_raw (display_value (eval_value (nest 79 (CScalar (SInt 1))))) = POk v'
+             /\ abs_value v' = abs_value (eval_value (nest 79 (CScalar (SInt 1)))).
+Proof. eexists. split; vm_compute; reflexivity. Qed.
+Example ex_depth_80_refused :
+  value_depth (eval_value (nest 80 (CScalar (SInt 1)))) = LIMIT /\
+  exists e at_, parse_value_raw (display_value (eval_value (nest 80 (CScalar (SInt 1))))) = PErr e at_.
+Proof. split; [reflexivity|]. eexists. eexists. vm_compute. reflexivity. Qed.
+
+(* a value taken out of an array keeps the blank Array::push gave it and does not parse alone *)
+Example ex_not_top_plain :
+  let v := value_decorate_str (value_from (SInt 1)) [x20] [] in
+  BuiltValue scalar_ok key_ok v /\ display_value v = [x20; x31] /\
+  exists e at_, parse_value_raw (display_value v) = PErr e at_.
+Proof.
+  cbv zeta. split; [constructor; [reflexivity|split; [right; right|right]; reflexivity]|].
+  split; [reflexivity|]. eexists. eexists. vm_compute. reflexivity.
+Qed.
